@@ -19,6 +19,8 @@ RULE = ('Hypothesis draws a family (constant, identity, monomial with exponent 0
         'gradient/hessian entry-wise equal to partial/partial2; evaluation on a d x m array equals point-wise evaluation. '
         'NotImplementedError for second derivatives of periodic Gauss / B-spline is the documented contract. Non-trivial: '
         'parameters other than the ones in tests (mean != 0, alpha != 1, domain != 1, prefactor != 1) or dimension > 1.')
+RULE += (' ' + 'Added classes: Legendre domains 1e-3 ... 1000, B-spline evaluation at the end knots, the same point array updated in place between two rounds of queries, earlier results kept by the caller.')
+
 ASSUMPTIONS = [
     'oracle: complex-step / Richardson differentiation of the evaluation itself (independent of the derivative code)',
     'evaluation points inside the natural domain; spline points at least 0.05 away from every knot',
@@ -268,6 +270,38 @@ def body_fn(case):
             h3 = np.asarray(f.hessian(x1), dtype=float)
             require(np.array_equal(h3, h1_val), 'hessian_value', 'Hessian at the first point differs after the caller modified an array returned earlier')
         lab.add('earlier_results_kept')
+    if X.shape[1] >= 2 and not case.get('point_type', 'float').startswith('int'):
+        # the same point ARRAY, updated in place between two queries (x += step, as an integrator or optimiser does): the second
+        # answers must be those for the new content -- compared with the answers for a fresh copy of the array
+        xa = X[:, 0].copy()
+        step = X[:, 1] - X[:, 0]
+        first = (float(f(xa)), np.array(f.gradient(xa), dtype=float, copy=True))
+        try:
+            f.hessian(xa)
+        except NotImplementedError:
+            pass
+        xa += step
+        # (first everything on the updated array itself, only then the reference values on a fresh copy)
+        got_g = np.array(f.gradient(xa), dtype=float, copy=True)
+        got_p = float(f.partial(xa, idx))
+        try:
+            got_h = np.array(f.hessian(xa), dtype=float, copy=True)
+            got_p2 = float(f.partial2(xa, idx, idx))
+        except NotImplementedError:
+            got_h = None
+        got_v = float(f(xa))
+        xb = xa.copy()
+        close(np.array(got_v), np.array(float(f(xb))), 1e-14, 1.0 + abs(float(f(xb))), 'array_eval', 'f(x) after x was updated in place (same array object)')
+        gb = np.asarray(f.gradient(xb), dtype=float)
+        close(got_g, gb, 1e-14, 1.0 + float(np.max(np.abs(gb))), 'gradient_value', 'gradient after the point array was updated in place')
+        pb = float(f.partial(xb, idx))
+        close(np.array(got_p), np.array(pb), 1e-14, 1.0 + abs(pb), 'partial_value', 'partial after the point array was updated in place')
+        if got_h is not None:
+            hb = np.asarray(f.hessian(xb), dtype=float)
+            close(got_h, hb, 1e-14, 1.0 + float(np.max(np.abs(hb))), 'hessian_value', 'Hessian after the point array was updated in place')
+            p2b = float(f.partial2(xb, idx, idx))
+            close(np.array(got_p2), np.array(p2b), 1e-14, 1.0 + abs(p2b), 'partial2_value', 'partial2 after the point array was updated in place')
+        lab.add('point_array_updated_in_place')
     return lab
 
 
